@@ -98,6 +98,10 @@ func corrC07(c *corrCtx) {
 		for i := 0; i < 6; i++ {
 			cuts[r.intn(len(s.data)+1)] = true
 		}
+		// exact multiples of 64 KiB (any block-structured recording of what was read would have its seams there)
+		for k := 65536; k <= len(s.data) && k <= 4*65536; k += 65536 {
+			cuts[k] = true
+		}
 		for cut := range sortedKeys(cuts) {
 			_ = cut
 		}
